@@ -51,8 +51,8 @@ CHECKS = {
     design="DESIGN.md §2 C09"),
  "C10": dict(
     technique="string helpers extracted at run time from the working tree, compiled unchanged as C and C++ with ASan+UBSan and called exhaustively on exact-size heap blocks; results compared with an executable specification (level 1); end-to-end string traffic through generated wrappers (level 2, execution engine)",
-    text="ShroudLenTrim, StrCopy, StrBlankFill, StrAlloc/Free, StrArrayAlloc/Free (C and C++ text) and ShroudStrToArray + CopyStringAndFree (C++) are called for all source lengths 0..N x destination lengths 0..N x trimmed lengths x nsrc=-1 x NULL source x all contents over {'a',' '} up to length 6 (N=10 quick, 14 thorough). Held = no sanitizer report, no guard violation, every result equal to the specification.",
-    note="Trusted: gcc 12 ASan/UBSan; the specification in native/c10_driver.c. nonnull-attribute check disabled (zero-length copies from NULL read nothing).",
+    text="ShroudLenTrim, StrCopy, StrBlankFill, StrAlloc/Free, StrArrayAlloc/Free (C and C++ text) and ShroudStrToArray + CopyStringAndFree (C++) are called for all source lengths 0..N x destination lengths 0..N x trimmed lengths x nsrc=-1 x NULL source x all contents over {'a',' '} up to length 6 (N=10 quick, 14 thorough). Held = no sanitizer report, no guard violation, every result equal to the specification. Level 2: string libraries (char* in / out+charlen / inout / result / +len result incl. NULL results; std::string by value, const&, const*, & out, & inout, * out, * inout, result by value / const& / +len / owner(caller) pointer) for language c and c++, F_CFI off and on, are wrapped, built with ASan+UBSan and called from Fortran for every declared length 0..N x every C string length (or trimmed length) 0..N+2 exhaustively (N=7 quick, 10 thorough; 2.6k / 9k calls): the library must receive the argument without trailing blanks and NUL-terminated, the caller must see the C string truncated / blank-padded to the declared length, allocatable results with exactly the C length, NULL as zero-length.",
+    note="Trusted: gcc 12 ASan/UBSan; the specification in native/c10_driver.c; the call model of vf/libgen/ir.py for level 2. nonnull-attribute check disabled (zero-length copies from NULL read nothing). char* intent(out): the Fortran variable is the library's buffer (docs/input.rst charlen), so declared lengths start at charlen there (a first version that went below was a false alarm of the harness and was corrected).",
     design="DESIGN.md §2 C10"),
  "C01": dict(
     technique="generated wrappers compiled with ASan+UBSan, linked with an instrumented subject library and driven by a synthesised Fortran program; library RECV/SEND trace and caller OUT records compared with a reference model; metamorphic comparison across F_CFI / debug; upstream FRUIT drivers under sanitizers",
